@@ -46,4 +46,18 @@ func init() {
 			"HTTP server and client": "stub: handler invoked directly with a body reader the simulator controls",
 		},
 	}
+	props["C15"] = &propCfg{
+		ID: "C15", Harness: "modfs",
+		Quick:    tierCfg{Runs: 40000, Procs: 8, WallS: 600},
+		Thorough: tierCfg{Runs: 2000000, Procs: 16, Seeds: 3, WallS: 3000},
+		Rule: "one evaluation = one random import digraph on <= 5 modules + main (acyclic by default, any edge incl. self-imports and cycles in a quarter of the runs; nested names 库-丁 -> 库/丁.zn, 库-深-戊 -> 库/深/戊.zn; all-or-selected import lists; library imports 《@JSON》 from several modules; missing module / missing library; a module missing, replaced by a directory or not UTF-8) written to the simulated disk and run through the real LoadFile finder; module bodies display a marker and define functions/types that call siblings of their own module or imported functions; main calls what it imported, may assign to an imported name or call a non-imported one. A quarter of the runs also inject stat/open/read faults; import-all order is a tape decision. Oracle: executable loader model (DFS, loading/loaded sets): marker trace (each body once, before its importer's statements), call results, result, or the first error class (60 missing, 63 cycle, 64 library, 44 assign, 42 not imported); a faulted load may fail with any error but may not complete with a different trace. distinct_nontrivial = distinct canonical graph shapes (imports with list sizes, call edges, damage, enabled faults).",
+		Assume: []string{
+			"a second import of the same module inside ONE importer is not generated (the implementation rejects the duplicate declaration with error 43, which the property does not rule on)",
+			"redeclaring an imported name with 令 in the importer's body is shadowing, not generated",
+		},
+		Components: map[string]string{
+			"pkg/exec (evalImportStmt, execAnotherModule, LoadFile finder), pkg/runtime (ModuleGraph, VM, Scope), pkg/io, parser, evaluator, stdlib/json": "real code (transformed copy)",
+			"file system": "simulated disk with fault points",
+		},
+	}
 }
